@@ -28,6 +28,7 @@ def plan(tier, seed):
         for k, kind in enumerate(("ws", "rs")):
             for sh in range(1 if tier == "quick" else 4):
                 jobs.append({"func": "histories", "fw": fw, "name": "hist/%s/%s/%d" % (fw, kind, sh), "args": {"seed": seed * 1000 + i * 100 + k * 10 + sh, "n": n, "kind": kind}})
+        jobs.append({"func": "encrypted_unencodable", "fw": fw, "name": "encrypted_unencodable/" + fw, "args": {}})
     return jobs
 
 
@@ -57,7 +58,7 @@ def strategy(kind):
         "procs": st.lists(st.tuples(st.sampled_from(BEHAVIOURS), st.booleans(), st.integers(0, 3)), min_size=3, max_size=3),   # behaviour, wants details, n progress
         # how each procedure is registered: a plain callable, a bound method, or register(obj) of an object with a @wamp.register-decorated method
         # (the object may be an empty container or otherwise falsy: it is still the method's self)
-        "styles": st.lists(st.sampled_from(["func", "func", "bound", "obj", "obj-empty", "obj-false"]), min_size=3, max_size=3),
+        "styles": st.lists(st.sampled_from(["func", "func", "func-checked", "bound", "obj", "obj-empty", "obj-false"]), min_size=3, max_size=3),
         "steps": st.lists(step, min_size=1, max_size=10), "kind": st.just(kind)})
 
 
@@ -100,8 +101,9 @@ class World:
             fn = self.make_endpoint(k, beh, details, nprog)
             opt = RegisterOptions(details=True) if (details or beh == "progress") else None
             style = (c.get("styles") or ["func"] * 3)[k]
-            if style == "func":
-                fut = self.tx.d.call(lambda fn=fn, k=k, opt=opt: self.sess.register(fn, "com.myapp.proc%d" % k, opt))
+            if style in ("func", "func-checked"):
+                # "-checked": registered with check_types=True (the endpoint has no annotations, so every call passes the check and must reach it unchanged)
+                fut = self.tx.d.call(lambda fn=fn, k=k, opt=opt, ct=(style == "func-checked"): self.sess.register(fn, "com.myapp.proc%d" % k, opt, check_types=ct or None))
                 txaio.add_callbacks(fut, lambda reg, k=k: self.regs.__setitem__(k, reg), None)
             else:
                 holder = self.make_holder(k, fn, style)
@@ -268,6 +270,8 @@ class World:
             opts["caller"] = 4242
             opts["caller_authid"] = "joe"
         inv = {"id": iid, "proc": k, "beh": beh, "rp": rp, "terminal": [], "progress": [], "args": list(args), "kwargs": dict(kwargs), "state": "running"}
+        if with_interrupt and (self.c.get("styles") or ["func"] * 3)[k] == "func-checked":
+            inv["cancelled_at_once"] = True
         self.invs.append(inv)
         n_calls = len(self.calls)
         msg = [68, iid, self.reg_ids[k], opts]
@@ -281,6 +285,12 @@ class World:
             self.tx.send_raw(msg)
         self.collect()
         seen = self.calls[n_calls:]
+        if with_interrupt and not seen and (self.c.get("styles") or ["func"] * 3)[k] == "func-checked":
+            # the type-checking wrapper is a coroutine: the INTERRUPT of the same read may cancel it before the endpoint itself started.
+            # The statement asks for exactly one terminal reply - the ERROR for the cancellation
+            inv["state"] = "done"
+            self.expect_terminal(inv, "interrupted")
+            return
         if len(seen) != 1 or seen[0][0] != k:
             raise Violation("C10|endpoint-not-invoked-once", "invocation %d: endpoint calls %r" % (iid, brief(seen)), self.c)
         _, a, kw, det = seen[0]
@@ -364,7 +374,10 @@ class World:
         nprog = len(inv["progress"])
         if nprog and not inv["rp"]:
             raise Violation("C10|progress-sent-although-not-requested", "invocation %d: %d progressive YIELDs" % (inv["id"], nprog), self.c)
-        if inv["beh"] == "progress" and inv["rp"] and nprog != self.c["procs"][inv["proc"]][2]:
+        want_prog = self.c["procs"][inv["proc"]][2]
+        if inv.get("cancelled_at_once") and nprog <= want_prog:
+            pass        # interrupted in the same read while the (asynchronous, type-checking) wrapper had not run the endpoint yet: its progress comes after the terminal ERROR and is dropped
+        elif inv["beh"] == "progress" and inv["rp"] and nprog != self.c["procs"][inv["proc"]][2]:
             raise Violation("C10|progress-count-differs", "%d vs %d" % (nprog, self.c["procs"][inv["proc"]][2]), self.c)
 
     def safely(self, fn):
@@ -480,9 +493,39 @@ def histories(col, seed, n, kind):
     run_hypothesis(col, "hist", strategy(kind), body, n, seed)
 
 
+def encrypted_unencodable(col):
+    """enumerated: an invocation that arrived encrypted (cryptobox keyring active) whose endpoint returns / raises / emits a value that the payload
+    codec cannot serialize although the transport could carry it: still exactly one terminal reply (what may be in it is C20's business)"""
+    from checks.c20_cryptobox import unencodable_one
+    from harness.core import in_autobahn
+    for ser in ("cbor", "msgpack"):
+        for direction in ("yield", "yield-callresult", "error", "progress"):
+            for value in ("set", "frozenset", "datetime", "uuid", "nested-set"):
+                c = {"check": "encrypted_unencodable", "ser": ser, "direction": direction, "value": value}
+                try:
+                    unencodable_one(c, prop="C10")
+                except Violation as v:
+                    if not v.key.startswith("C10|"):
+                        continue        # judged by C20
+                    raise
+                except HarnessError:
+                    raise
+                except Exception as e:
+                    if in_autobahn(e):
+                        raise Violation("C10|encrypted|exception|" + exc_key(e), repr(e), c)
+                    raise
+                col.case(True, enum=True, cls=["encrypted-unencodable/%s/%s" % (direction, value)], sample=c)
+    col.exhaustive.append("C10 encrypted_unencodable: 4 endpoint outcomes x 5 values the payload codec cannot serialize x 2 transport serializers")
+
+
 def replay(col, case):
     case = dec(case)
     c = case.get("case", case)
+    if c.get("check") == "encrypted_unencodable":
+        from checks.c20_cryptobox import unencodable_one
+        unencodable_one(c, prop="C10")
+        col.case()
+        return
     c.pop("check", None)
     c["procs"] = [tuple(p) for p in c["procs"]]
     c["steps"] = [tuple(s) for s in c["steps"]]
